@@ -18,6 +18,7 @@ import CimbaModel.Stats.SummaryLemmas
 import CimbaModel.Stats.HistLemmas
 import CimbaModel.Stats.AcfLemmas
 import CimbaModel.Stats.MonitorLemmas
+import CimbaModel.Stats.SeriesAddLemmas
 
 namespace CimbaModel.Props.C18
 open CimbaModel.Stats
@@ -85,6 +86,19 @@ theorem copy_then_add_in_bounds (initSz : Nat) (s : TS K) (x t : K) (h : s.WF) (
   exact ⟨c, c', hc, ha, w', by rw [n', cc]⟩
 
 end
+
+/-- `cmb_timeseries_add(x, t)` with `t` not before the last time stamp (its contract), through any number
+    of capacity doublings: in bounds on all three arrays; the sample is appended with its time; all durations
+    stay ≥ 0 (zero durations allowed) and the newest sample has duration 0; `min` / `max` stay the extremes.
+    So the hypotheses `WF`, `MinMaxOK`, "durations ≥ 0" of the weighted theorems below hold for every series
+    built by adds from an initialized one (`TS.Inv_empty`). -/
+theorem series_add_keeps_invariant {K : Type} [Inhabited K] [Field K] [LinearOrder K] [IsStrictOrderedRing K]
+    (initSz : Nat) (s : TS K) (x t : K) (h : s.Inv) (hi : 0 < initSz) (ht : ∀ tp, s.lastTime = some tp → tp ≤ t) :
+    ∃ s', s.add initSz x t = some s' ∧ s'.Inv ∧ s'.ds.count = s.ds.count + 1 ∧
+      s'.ds.samples = s.ds.samples ++ [x] ∧ s'.lastTime = some t ∧
+      s'.triples.map (·.1) = s.triples.map (·.1) ++ [x] ∧
+      s'.triples.map (·.2.1) = s.triples.map (·.2.1) ++ [t] :=
+  TS.add_inv initSz s x t h hi ht
 
 /-- the shipped `cmb_timeseries_copy` (time / weight arrays allocated with `count` slots): adding to the
     copy of a one-sample series writes out of bounds (no value in the model) -/
